@@ -26,7 +26,12 @@ def bits(x, ty):
         return int(x)
     if isinstance(x, int):
         return x & ((1 << 64) - 1)
-    return struct.unpack("<I", struct.pack("<f", x))[0] if ty == "f" else struct.unpack("<Q", struct.pack("<d", x))[0]
+    if ty == "f":
+        try:
+            return struct.unpack("<I", struct.pack("<f", x))[0]
+        except OverflowError:       # a finite double beyond the float range: cannot be the result of the float overload
+            return 1 << 70
+    return struct.unpack("<Q", struct.pack("<d", x))[0]
 
 
 def is_nan_bits(w):
